@@ -237,10 +237,14 @@ mod repr {
             let mut fixpoint = next(&guess);
             // first go up then go down, to ensure an underestimate
             while fixpoint > guess {
+                #[cfg(dashu_verif)]
+                dashu_base::verif::tick(dashu_base::verif::LOOP_NTH_ROOT);
                 guess = fixpoint;
                 fixpoint = next(&guess);
             }
             while fixpoint < guess {
+                #[cfg(dashu_verif)]
+                dashu_base::verif::tick(dashu_base::verif::LOOP_NTH_ROOT);
                 guess = fixpoint;
                 fixpoint = next(&guess);
             }
